@@ -1,2 +1,180 @@
 #![allow(warnings, clippy::all, clippy::pedantic, clippy::nursery)]
+//@ module: commands::config
 use super::*;
+use crate::error::verif_harness as vh;
+use crate::blob::BlobType;
+use crate::blob::packer::PackSizer;
+
+fn any_opt_u32() -> Option<u32> { if kani::any() { Some(kani::any()) } else { None } }
+fn any_opt_usize() -> Option<usize> { if kani::any() { Some(kani::any()) } else { None } }
+fn any_opt_bool() -> Option<bool> { if kani::any() { Some(kani::any()) } else { None } }
+fn any_opt_i32() -> Option<i32> { if kani::any() { Some(kani::any()) } else { None } }
+fn any_opt_bs() -> Option<ByteSize> { if kani::any() { Some(ByteSize(kani::any())) } else { None } }
+fn any_chunker() -> Option<Chunker> {
+    if kani::any() { Some(if kani::any() { Chunker::Rabin } else { Chunker::FixedSize }) } else { None }
+}
+
+pub(crate) fn any_config() -> ConfigFile {
+    let c = ConfigFile {
+        version: kani::any(),
+        id: Default::default(),
+        chunker: any_chunker(),
+        chunker_polynomial: String::new(),
+        chunk_size: any_opt_usize(),
+        chunk_min_size: any_opt_usize(),
+        chunk_max_size: any_opt_usize(),
+        is_hot: any_opt_bool(),
+        append_only: any_opt_bool(),
+        compression: any_opt_i32(),
+        treepack_size: any_opt_u32(),
+        treepack_growfactor: any_opt_u32(),
+        treepack_size_limit: any_opt_u32(),
+        datapack_size: any_opt_u32(),
+        datapack_growfactor: any_opt_u32(),
+        datapack_size_limit: any_opt_u32(),
+        min_packsize_tolerate_percent: any_opt_u32(),
+        max_packsize_tolerate_percent: any_opt_u32(),
+        extra_verify: any_opt_bool(),
+    };
+    kani::assume(c.version == 1 || c.version == 2);
+    c
+}
+
+pub(crate) fn any_options() -> ConfigOptions {
+    ConfigOptions {
+        set_version: any_opt_u32(),
+        set_chunker: any_chunker(),
+        set_chunk_size: any_opt_bs(),
+        set_chunk_min_size: any_opt_bs(),
+        set_chunk_max_size: any_opt_bs(),
+        set_compression: any_opt_i32(),
+        set_append_only: any_opt_bool(),
+        set_treepack_size: any_opt_bs(),
+        set_treepack_size_limit: any_opt_bs(),
+        set_treepack_growfactor: any_opt_u32(),
+        set_datapack_size: any_opt_bs(),
+        set_datapack_growfactor: any_opt_u32(),
+        set_datapack_size_limit: any_opt_bs(),
+        set_min_packsize_tolerate_percent: any_opt_u32(),
+        set_max_packsize_tolerate_percent: any_opt_u32(),
+        set_extra_verify: any_opt_bool(),
+    }
+}
+
+//@ harness: c18_config_apply_frame
+//@ prop: C18
+//@ tier: quick
+//@ timeout: 600
+//@ unwindset: EcoVec.*extend_from_slice#0=200
+//@ kernel: ConfigOptions::apply, check_rabin_params, ConfigFile::{chunker,chunk_size,chunk_min_size,chunk_max_size}
+//@ bound: all 16 ConfigOptions fields and all 18 scalar ConfigFile fields symbolic over their full types (version in {1,2}); chunker_polynomial/id concrete (not read by apply)
+//@ oracle: apply never panics (overflow/unwrap/index checks); Ok => every field whose option is None is unchanged, every named field has the requested value, version does not decrease
+//@ assume: stored config has version 1 or 2 (only versions apply/init ever write)
+//@ stub: std::backtrace::Backtrace::capture -> disabled backtrace; alloc::fmt::format -> empty string; zstd::compression_level_range -> -131072..=22 (zstd's documented range)
+#[kani::proof]
+#[kani::unwind(4)]
+#[kani::stub(std::backtrace::Backtrace::capture, crate::error::verif_harness::stub_backtrace_capture)]
+#[kani::stub(zstd::compression_level_range, crate::error::verif_harness::stub_level_range)]
+#[kani::stub(alloc::fmt::format, crate::error::verif_harness::stub_format)]
+pub(crate) fn c18_config_apply_frame() {
+    let mut config = any_config();
+    let old = config.clone();
+    let opts = any_options();
+    let r = opts.apply(&mut config);
+    if r.is_ok() {
+        kani::cover!(true, "apply accepted");
+        kani::cover!(opts.set_extra_verify.is_none() && old.extra_verify.is_some(), "accepted with extra_verify unnamed");
+        // frame: unnamed settings unchanged
+        if opts.set_version.is_none() { assert!(config.version == old.version); }
+        if opts.set_chunker.is_none() { assert!(config.chunker == old.chunker); }
+        if opts.set_chunk_size.is_none() { assert!(config.chunk_size == old.chunk_size); }
+        if opts.set_chunk_min_size.is_none() { assert!(config.chunk_min_size == old.chunk_min_size); }
+        if opts.set_chunk_max_size.is_none() { assert!(config.chunk_max_size == old.chunk_max_size); }
+        if opts.set_compression.is_none() { assert!(config.compression == old.compression); }
+        if opts.set_append_only.is_none() { assert!(config.append_only == old.append_only); }
+        if opts.set_treepack_size.is_none() { assert!(config.treepack_size == old.treepack_size); }
+        if opts.set_treepack_growfactor.is_none() { assert!(config.treepack_growfactor == old.treepack_growfactor); }
+        if opts.set_treepack_size_limit.is_none() { assert!(config.treepack_size_limit == old.treepack_size_limit); }
+        if opts.set_datapack_size.is_none() { assert!(config.datapack_size == old.datapack_size); }
+        if opts.set_datapack_growfactor.is_none() { assert!(config.datapack_growfactor == old.datapack_growfactor); }
+        if opts.set_datapack_size_limit.is_none() { assert!(config.datapack_size_limit == old.datapack_size_limit); }
+        if opts.set_min_packsize_tolerate_percent.is_none() { assert!(config.min_packsize_tolerate_percent == old.min_packsize_tolerate_percent); }
+        if opts.set_max_packsize_tolerate_percent.is_none() { assert!(config.max_packsize_tolerate_percent == old.max_packsize_tolerate_percent); }
+        if opts.set_extra_verify.is_none() { assert!(config.extra_verify == old.extra_verify); }
+        assert!(config.is_hot == old.is_hot);
+        // named settings take the requested value
+        if let Some(v) = opts.set_version { assert!(config.version == v); }
+        if let Some(v) = opts.set_chunker { assert!(config.chunker == Some(v)); }
+        if let Some(v) = opts.set_chunk_size { assert!(config.chunk_size == Some(v.as_u64() as usize)); }
+        if let Some(v) = opts.set_chunk_min_size { assert!(config.chunk_min_size == Some(v.as_u64() as usize)); }
+        if let Some(v) = opts.set_chunk_max_size { assert!(config.chunk_max_size == Some(v.as_u64() as usize)); }
+        if let Some(v) = opts.set_compression { assert!(config.compression == Some(v)); }
+        if let Some(v) = opts.set_append_only { assert!(config.append_only == Some(v)); }
+        if let Some(v) = opts.set_treepack_size { assert!(config.treepack_size.map(u64::from) == Some(v.as_u64())); }
+        if let Some(v) = opts.set_datapack_size { assert!(config.datapack_size.map(u64::from) == Some(v.as_u64())); }
+        if let Some(v) = opts.set_treepack_size_limit { assert!(config.treepack_size_limit.map(u64::from) == Some(v.as_u64())); }
+        if let Some(v) = opts.set_datapack_size_limit { assert!(config.datapack_size_limit.map(u64::from) == Some(v.as_u64())); }
+        if let Some(v) = opts.set_treepack_growfactor { assert!(config.treepack_growfactor == Some(v)); }
+        if let Some(v) = opts.set_datapack_growfactor { assert!(config.datapack_growfactor == Some(v)); }
+        if let Some(v) = opts.set_min_packsize_tolerate_percent { assert!(config.min_packsize_tolerate_percent == Some(v)); }
+        if let Some(v) = opts.set_max_packsize_tolerate_percent { assert!(config.max_packsize_tolerate_percent == Some(v)); }
+        if let Some(v) = opts.set_extra_verify { assert!(config.extra_verify == Some(v)); }
+        // downgrade refused
+        assert!(config.version >= old.version);
+        assert!(config.version == 1 || config.version == 2);
+    } else {
+        kani::cover!(true, "apply refused");
+    }
+    std::mem::forget(r);
+}
+
+//@ harness: c18_config_accepted_is_usable
+//@ prop: C18
+//@ tier: quick
+//@ timeout: 900
+//@ unwindset: EcoVec.*extend_from_slice#0=200
+//@ kernel: ConfigOptions::apply, check_rabin_params, ConfigFile::{zstd,chunk_size,chunk_min_size,chunk_max_size,chunker}
+//@ bound: options/config fully symbolic as in c18_config_apply_frame
+//@ oracle: Ok(apply) => the resulting configuration is internally usable: chunk size > 0, rabin parameters pass check_rabin_params without panic and leave room for the 64-byte window (min >= 64 is NOT demanded; that is C06's harness), zstd() is Ok, compression level is inside zstd's range and 0 for v1
+//@ assume: the stored config satisfies the same usability invariant (chunk size > 0; rabin => power of two and min <= size <= max): it was produced by init defaults or an earlier accepted apply, so the harness is an inductive step
+//@ stub: Backtrace::capture, alloc::fmt::format, zstd::compression_level_range -> -131072..=22
+#[kani::proof]
+#[kani::unwind(4)]
+#[kani::stub(std::backtrace::Backtrace::capture, crate::error::verif_harness::stub_backtrace_capture)]
+#[kani::stub(zstd::compression_level_range, crate::error::verif_harness::stub_level_range)]
+#[kani::stub(alloc::fmt::format, crate::error::verif_harness::stub_format)]
+pub(crate) fn c18_config_accepted_is_usable() {
+    let mut config = any_config();
+    // inductive hypothesis on the stored configuration
+    kani::assume(config.chunk_size() > 0);
+    if matches!(config.chunker(), Chunker::Rabin) {
+        kani::assume(config.chunk_size().is_power_of_two());
+        kani::assume(config.chunk_min_size() <= config.chunk_size() && config.chunk_size() <= config.chunk_max_size());
+    }
+    let opts = any_options();
+    let r = opts.apply(&mut config);
+    if r.is_ok() {
+        kani::cover!(true, "apply accepted");
+        kani::cover!(opts.set_chunk_size.is_some(), "accepted with a chunk size named");
+        // chunker parameters
+        assert!(config.chunk_size() > 0);
+        if matches!(config.chunker(), Chunker::Rabin) {
+            let c = check_rabin_params(config.chunk_size(), config.chunk_min_size(), config.chunk_max_size());
+            assert!(c.is_ok());
+            std::mem::forget(c);
+            assert!(config.chunk_size().is_power_of_two());
+            assert!(config.chunk_min_size() <= config.chunk_size() && config.chunk_size() <= config.chunk_max_size());
+        }
+        // (pack sizing: PackSizer arithmetic is checked for *every* field value, a superset of what
+        //  apply can produce, in c18_pack_size_no_overflow / c18_pack_sizer_predicates)
+        let r2 = config.zstd();
+        assert!(r2.is_ok());
+        std::mem::forget(r2);
+        // compression named by this change is valid for the version
+        if let Some(c) = opts.set_compression {
+            assert!(config.version == 2 || c == 0);
+            assert!((-131072..=22).contains(&c));
+        }
+    }
+    std::mem::forget(r);
+}
